@@ -31,6 +31,10 @@ type scriptedSvc struct {
 
 var errSvc = errors.New("service error")
 
+type multiErr []error
+
+func (m multiErr) Error() string { return "several errors" }
+
 func (s scriptedSvc) Start(_ context.Context) error { return nil }
 func (s scriptedSvc) Shutdown(ctx context.Context) error {
 	_, hasDL := ctx.Deadline()
@@ -44,6 +48,9 @@ func (s scriptedSvc) Shutdown(ctx context.Context) error {
 	switch s.mode {
 	case 'e':
 		return errSvc
+	case 'm':
+		// an error of a type that cannot be compared with == (comparing two of them panics)
+		return multiErr{errSvc, errSvc}
 	case 'p':
 		panic("service panic")
 	case 'q':
@@ -401,6 +408,13 @@ func execRWOnce(args []string, settle time.Duration) string {
 	})
 	startCtx := context.WithValue(context.Background(), ctxKey("parent"), "s")
 	shutCtx := context.WithValue(context.Background(), ctxKey("parent"), "h")
+	if (len(args[1])+len(args[2]))%2 == 0 {
+		// as SignalHandler passes it: the context of Shutdown already has a deadline (the context
+		// constructor is applied to it all the same)
+		var shutCancel context.CancelFunc
+		shutCtx, shutCancel = context.WithTimeout(shutCtx, time.Hour)
+		defer shutCancel()
+	}
 	_ = w.Start(startCtx)
 	if !h.waitArmed() {
 		return "STUCK-at-start"
@@ -544,7 +558,7 @@ func genC18(g *G) {
 	}
 	rec("")
 	// panics with values of every kind (string, int, error, struct, pointer) count alike
-	for _, outs := range []string{"q", "r", "u", "y", "nq", "qn", "nrn", "un", "ny", "qe", "nnu", "ynn"} {
+	for _, outs := range []string{"q", "r", "u", "y", "nq", "qn", "nrn", "un", "ny", "qe", "nnu", "ynn", "m", "mm", "nmm", "mnm", "mmn", "mem", "mmm"} {
 		g.Emit("sig", "t", outs)
 		g.Emit("sig", "hi", outs)
 	}
